@@ -145,6 +145,7 @@ func cmdCheck(args []string) int {
 	timeout := 10
 	if *tier == "thorough" {
 		timeout = 60
+		targetBudgetSecs = 900
 	}
 	// targets
 	var targets []Target
@@ -420,6 +421,7 @@ func runTarget(p *Loaded, t Target, selRet int) (res *TargetResult) {
 	t0 := time.Now()
 	x := NewExec(p)
 	x.selectReturn = selRet
+	x.deadline = t0.Add(time.Duration(targetBudgetSecs) * time.Second)
 	res = &TargetResult{Target: t.Name, Exec: x}
 	defer func() {
 		res.Secs = time.Since(t0).Seconds()
@@ -575,6 +577,10 @@ func runTarget(p *Loaded, t Target, selRet int) (res *TargetResult) {
 // ---------------- reporting ----------------
 
 var replayDirOverride string
+// targetBudgetSecs bounds the symbolic execution of one target (the solver has its own time-outs):
+// a target that does not finish is reported out of subset, not waited for.
+var targetBudgetSecs = 45
+
 var boundedList []string
 var boundedNotesExtra []string
 
